@@ -39,7 +39,12 @@ class T:
         return SBool(z3.Bool(s.ns + name))
 
     def float(s, name):
-        return SFloat(z3.FP(s.ns + name, F64))
+        """binary64 hole: NaN, +-inf, or finite with |x| < 2**62 (so that int(x) can be encoded through a 64-bit
+        bit-vector conversion; z3 answers `unknown` on fp.to_real for the general case)"""
+        f = z3.FP(s.ns + name, F64)
+        lim = fpv(2.0 ** 62)
+        s.eng.domain(('tfloat', s.ns + name), z3.Or(z3.fpIsNaN(f), z3.fpIsInf(f), z3.And(z3.fpLT(f, lim), z3.fpGT(f, z3.fpNeg(lim)))))
+        return SFloat(f)
 
     def any(s, name, alts):
         name = s.ns + name
@@ -169,6 +174,11 @@ def p_int_ge1(x):
     return z3.BoolVal(False)
 
 
+def float_to_int(f):
+    """exact integer part of a finite binary64 with |f| < 2**63"""
+    return z3.BV2Int(z3.fpToSBV(z3.RTZ(), f, z3.BitVecSort(64)), True)
+
+
 def num_value(x):
     """z3 Int value of an integral number template (for thresholds / versions), or None"""
     if isinstance(x, SInt):
@@ -176,7 +186,7 @@ def num_value(x):
     if isinstance(x, SBool):
         return z3.If(x.e, z3.IntVal(1), z3.IntVal(0))
     if isinstance(x, SFloat):
-        return z3.ToInt(z3.fpToReal(z3.fpRoundToIntegral(z3.RTZ(), x.e)))
+        return float_to_int(x.e)
     if isinstance(x, (bool, int)):
         return z3.IntVal(int(x))
     if isinstance(x, float) and x == x and abs(x) != math.inf:
